@@ -132,7 +132,7 @@ func main() {
 		if len(terms) == 0 {
 			return
 		}
-		run.WriteCasesV(fmt.Sprintf("cases_%d.v", start), []string{"Lib.Json", "Gql.Types", "Gql.Value", "Gql.Query", "Gql.Check"}, "", "mismatches_from_sparse", 0, terms)
+		run.WriteCasesV(fmt.Sprintf("cases_%d.v", start), []string{"Lib.Json", "Gql.Types", "Gql.Value", "Gql.Query", "Gql.Check", "Gql.CheckFed"}, "", "mismatches19_from_sparse", 0, terms)
 		terms = nil
 		start = end
 	}
@@ -254,7 +254,15 @@ func main() {
 			queries = append(queries, gqlgen.CoqQuery(pr))
 			runs = append(runs, gqlgen.CoqRun(0, 1, nil, obsP))
 		}
-		terms = append(terms, fmt.Sprintf("(%d, %s)", idx, gqlgen.CoqCase([]string{gqlgen.CoqSchema(b.Schema)}, c.Data, q.Eff(), queries, runs)))
+		// the gateway's reading of the query: what graphql.Parse hands over, for the model's to_fed
+		view := "None"
+		if wf {
+			if t, ok := gqlgen.ParsedView(b, text, q.Vars); ok {
+				view = "(Some " + t + ")"
+				run.Hist("gateway-reading-compared")
+			}
+		}
+		terms = append(terms, fmt.Sprintf("(%d, (%s, %s))", idx, gqlgen.CoqCase([]string{gqlgen.CoqSchema(b.Schema)}, c.Data, q.Eff(), queries, runs), view))
 		if len(terms) >= shard {
 			flush(idx + 1)
 		}
